@@ -45,6 +45,9 @@ class Ctx:
         self.distinct = 0
         self.notes = []
         self.findings = load_known_findings()
+        self.rule = ("cases are the transitions of the TLC state graph replayed on the real code, the cases / rows enumerated by TLC from the "
+                     "specification, and the seeded driver cases listed under coverage; a case counts as distinct and non-trivial when it is a "
+                     "distinct graph edge, enumerated abstract case or dumped row (identical repetitions are not counted)")
 
     @property
     def quick(self):
@@ -97,6 +100,7 @@ class Ctx:
         cov["traces_validated_against_impl"] = int(self.traces)
         cov["evaluations"] = int(self.evaluations)
         cov["distinct_nontrivial"] = int(self.distinct)
+        cov["rule"] = self.rule
         cov["samples"] = self.samples if self.samples else ["(none)"]
         for k, v in self.cov.items():
             cov[k] = v
